@@ -1,5 +1,6 @@
 import Ecal.Model.Parser
 import Ecal.Gen.C08Print
+import Ecal.Gen.C08
 /-!
 Model of parser/prettyprinter.go at the CURRENT commit of /repo (with the repairs 58be508 — bracket rule
 `ppNeedsBrackets` —, 4f48871 — empty block comment —, e9f68ea — let / sink attributes are prefix operators — and 9f2e979 — `if true {…}` is not an else branch).  Text is a byte list.
@@ -105,8 +106,21 @@ def quoteWith (ip : Nat → Bool) (t : Txt) : Txt := [34] ++ quoteBody ip (t.len
 /-- strconv.Quote -/
 def quote (t : Txt) : Txt := quoteWith isPrint t
 
-/-- templates: key ↦ pieces (`inl` = text, `inr k` = child k (1-based); 0 = val, 100 = qval) -/
-def tmpl (key : String) : Option (List (String ⊕ Nat)) :=
+/-- a field name of a template: c<k> ↦ k, val ↦ 0, qval ↦ 100 -/
+def fieldIndex (name : String) : Option Nat :=
+  if name = "val" then some 0 else if name = "qval" then some 100
+  else if name.startsWith "c" then (name.drop 1).toString.toNat? else none
+
+/-- templates as EXTRACTED from prettyPrinterMap of the tree under test -/
+def tmplGen (key : String) : Option (List (String ⊕ Nat)) :=
+  match Ecal.Gen.C08.templates.find? (·.1 = key) with
+  | none => none
+  | some (_, pieces) => pieces.mapM fun (isField, t) =>
+      if isField then (fieldIndex t).map Sum.inr else some (Sum.inl t)
+
+/-- templates: key ↦ pieces (`inl` = text, `inr k` = child k (1-based); 0 = val, 100 = qval) — hand copy, used
+    when the extractor did not understand prettyPrinterMap -/
+def tmplHand (key : String) : Option (List (String ⊕ Nat)) :=
   let bin (op : String) := some [.inr 1, .inl (" " ++ op ++ " "), .inr 2]
   match key with
   | "string" => some [.inr 100] | "number" => some [.inr 0]
@@ -136,6 +150,13 @@ def tmpl (key : String) : Option (List (String ⊕ Nat)) :=
   | "finally_1" => some [.inl " finally {\n", .inr 1, .inl "}"]
   | "mutex_2" => some [.inl "mutex ", .inr 1, .inl " {\n", .inr 2, .inl "}\n"]
   | _ => none
+
+/-- the templates the printer model runs: the extracted ones when available -/
+def tmpl (key : String) : Option (List (String ⊕ Nat)) :=
+  if Ecal.Gen.C08.templatesOk then tmplGen key else tmplHand key
+
+def listThreshold : Nat := if Ecal.Gen.C08.templatesOk then Ecal.Gen.C08.listThreshold else 4
+def mapThreshold : Nat := if Ecal.Gen.C08.templatesOk then Ecal.Gen.C08.mapThreshold else 2
 
 /-- ppIsOperator: an infix operator, or a keyword that is parsed like a prefix operator (ndPrefix) -/
 def isOperator (n : Node) : Bool :=
@@ -168,6 +189,20 @@ def needsBrackets (parent child : Node) (childIndex : Nat) : Bool :=
   else if parent.name = "times" && (child.name = "times" || child.name = "div") &&
       isProductChain child parent.binding then false
   else decide (parent.binding > child.binding) || (parent.binding = child.binding && childIndex > 0)
+
+/-- what the extracted rule reads of a node; `sub` = value of its sub-tree helper ppIsProductChain -/
+def bnOfNode (n : Node) (sub : Bool) : Ecal.Gen.C08.BN :=
+  ⟨n.name, n.binding, n.led != Led.none, n.children.length, fun _ => sub⟩
+
+/-- ppNeedsBrackets as EXTRACTED from the Go source of the tree under test (`Ecal.Gen.C08.needsBrackets`), with
+    the model's `isProductChain` for its sub-tree helper -/
+def needsBracketsGen (parent child : Node) (childIndex : Nat) : Bool :=
+  Ecal.Gen.C08.needsBrackets (bnOfNode parent true) (bnOfNode child (isProductChain child parent.binding)) childIndex
+
+/-- the bracket rule the printer model runs: the extracted rule when the extractor understood the source,
+    the hand port otherwise -/
+def bracketRule (parent child : Node) (childIndex : Nat) : Bool :=
+  if Ecal.Gen.C08.shapeOk then needsBracketsGen parent child childIndex else needsBrackets parent child childIndex
 
 def indentNames : List String := ["statements", "map", "list", "kindmatch", "statematch", "scopematch", "priority", "suppresses"]
 def noInitialIndentParents : List String :=
@@ -216,14 +251,18 @@ def ppPostProcessing (ast : Node) (parent : Option Node) (txt : Txt) : Except PE
 
 def c (ps : List Txt) (i : Nat) : Txt := ps.getD (i - 1) []      -- tempParam["c<i>"], "" if missing
 
-partial def visit (ast? : Option Node) (parent : Option Node) : Except PErr Txt := do
+/-- the recursive function `visit` of PrettyPrint; fuel-indexed (structural), fuel = a bound on the depth of the tree -/
+def visitF : Nat → Option Node → Option Node → Except PErr Txt
+  | 0, _, _ => throw PErr.panic     -- fuel exhausted (never with `visit`'s fuel on a tree of the driver)
+  | fuel+1, ast?, parent => do
+  let visit := visitF fuel
   let ast ← (match ast? with | some a => pure a | none => throw PErr.nilNode)
   let n := ast.children.length
   -- children first
   let ps ← (ast.children.zipIdx).mapM fun (ch, i) => do
     let res ← visit ch (some ast)
     match ch with
-    | some chn => pure (if needsBrackets ast chn i then s "(" ++ res ++ s ")" else res)
+    | some chn => pure (if bracketRule ast chn i then s "(" ++ res ++ s ")" else res)
     | none => pure res
   let key := if n > 0 then ast.name ++ "_" ++ toString n else ast.name
   let kids : List Node := ast.children.filterMap id
@@ -242,12 +281,12 @@ partial def visit (ast? : Option Node) (parent : Option Node) : Except PErr Txt 
       c ps (i + 1) ++ (if (kids.getD (i + 1) default).name != "as" && i + 2 < n then s "," else []) ++ [32]
     post (s " except " ++ parts ++ s "{\n" ++ c ps n ++ s "}")
   | "list" =>
-    let multi := n > 4
+    let multi := n > listThreshold
     let body : Txt := (rangeFrom 0 n).flatMap fun i =>
       c ps (i + 1) ++ (if i + 1 < n then (if multi then s "," else s ", ") else []) ++ (if multi then [10] else [])
     post (s "[" ++ (if multi then [10] else []) ++ body ++ s "]")
   | "map" =>
-    let multi := n > 2
+    let multi := n > mapThreshold
     let body : Txt := (rangeFrom 0 n).flatMap fun i =>
       c ps (i + 1) ++ (if i + 1 < n then (if multi then s "," else s ", ") else []) ++ (if multi then [10] else [])
     post (s "{" ++ (if multi then [10] else []) ++ body ++ s "}")
@@ -264,9 +303,8 @@ partial def visit (ast? : Option Node) (parent : Option Node) : Except PErr Txt 
     post (s "(" ++ front ++ c ps (max n 1) ++ s ")")
   | "if" =>
     let guard (k : Nat) : Txt := c ps k ++ s " {\n" ++ c ps (k + 1) ++ s "}"
-    let mut out : Txt := s "if " ++ guard 1
-    let mut i := 0
-    while i < n do
+    -- the loop `for i := 0; i < len(ast.Children); i += 2`
+    let out ← ((List.range ((n + 1) / 2)).map (· * 2)).foldlM (fun (out : Txt) i => do
       -- Go: `i > 0 && i+2 == len(ast.Children) && ast.Children[i].Children[0].Name == NodeTRUE` (fix 9f2e979:
       -- the first branch is never an else branch); the guard's child is only read when the first two hold
       let isElse : Bool ← (if i > 0 && i + 2 = n then
@@ -276,10 +314,10 @@ partial def visit (ast? : Option Node) (parent : Option Node) : Except PErr Txt 
             | none => throw PErr.panic)
         else pure false)
       if isElse then
-        out := out ++ s " else {\n" ++ c ps (i + 2) ++ s "}"
+        pure (out ++ s " else {\n" ++ c ps (i + 2) ++ s "}")
       else if i > 0 then
-        out := out ++ s " elif " ++ guard (i + 1)
-      i := i + 2
+        pure (out ++ s " elif " ++ guard (i + 1))
+      else pure out) (s "if " ++ guard 1)
     post out
   | _ =>
     match tmpl key with
@@ -292,6 +330,9 @@ partial def visit (ast? : Option Node) (parent : Option Node) : Except PErr Txt 
         | .inr 100 => match ast.tok with | some t => pure (acc ++ quote t.val) | none => pure (acc ++ s "<no value>")
         | .inr k => pure (acc ++ c ps k)) []
       post txt
+
+/-- `visit` with a fuel far above the depth of any tree the driver sees -/
+def visit (ast? : Option Node) (parent : Option Node) : Except PErr Txt := visitF 100000 ast? parent
 
 def prettyPrint (ast : Option Node) : Except PErr Txt := do
   let r ← visit ast none
